@@ -65,10 +65,23 @@ class LocalPipelineIo(PipelineIo):
         # Write to a temporary name and rename into place, so that an
         # interrupted transfer can never leave a truncated or partial item
         # under its final name (in particular, next to an `index.wtml` that
-        # marks the containing directory as complete).
-        tpath = fpath + '.part'
+        # marks the containing directory as complete). The temporary file is
+        # created exclusively, so that it can never clobber another item that
+        # happens to carry the same name (e.g. a real `foo.png.part` stored
+        # next to `foo.png`, or the leftover of an earlier, interrupted
+        # transfer).
+        n = 0
 
-        with open(tpath, 'wb') as f:
+        while True:
+            tpath = '%s.%d.part' % (fpath, n)
+
+            try:
+                f = open(tpath, 'xb')
+                break
+            except FileExistsError:
+                n += 1
+
+        with f:
             shutil.copyfileobj(source, f)
 
         os.replace(tpath, fpath)
